@@ -16,6 +16,14 @@
 #define AES_SPEC_H_
 #include <stdint.h>
 
+/* specification text: CBMC's safety checks are for the code under verification, not for the specification */
+#pragma CPROVER check push
+#pragma CPROVER check disable "bounds"
+#pragma CPROVER check disable "pointer"
+#pragma CPROVER check disable "pointer-overflow"
+#pragma CPROVER check disable "conversion"
+#pragma CPROVER check disable "div-by-zero"
+
 /* sec. 4.2.1: multiplication by x modulo m(x) = x^8 + x^4 + x^3 + x + 1 */
 static inline uint8_t
 spec_aes_xtime(uint8_t a)
@@ -216,6 +224,15 @@ spec_aes_final_round(uint8_t st[16], const uint8_t rk[16])
 	spec_aes_add_round_key(st, rk);
 }
 
+/*
+ * G2 hook (DESIGN 2.3): a structure proof may replace the round functions on BOTH sides by lock-step stubs
+ * (harness/C02/aesni_g2.h); by default they are the functions above.
+ */
+#ifndef SPEC_AES_ROUND
+#define SPEC_AES_ROUND(st, rk) spec_aes_round(st, rk)
+#define SPEC_AES_FINAL_ROUND(st, rk) spec_aes_final_round(st, rk)
+#endif
+
 /* sec. 5.1 Cipher(in, out, w), Nr = 10 or 14 */
 static inline void
 spec_aes_cipher(const uint8_t in[16], uint8_t out[16], const uint8_t * w, int Nr)
@@ -226,8 +243,8 @@ spec_aes_cipher(const uint8_t in[16], uint8_t out[16], const uint8_t * w, int Nr
 		st[i] = in[i];
 	spec_aes_add_round_key(st, &w[0]);
 	for (int r = 1; r < Nr; r++)
-		spec_aes_round(st, &w[16 * r]);
-	spec_aes_final_round(st, &w[16 * Nr]);
+		SPEC_AES_ROUND(st, &w[16 * r]);
+	SPEC_AES_FINAL_ROUND(st, &w[16 * Nr]);
 	for (int i = 0; i < 16; i++)
 		out[i] = st[i];
 }
@@ -241,5 +258,7 @@ spec_aes(const uint8_t * key, int keylen, const uint8_t in[16], uint8_t out[16])
 	spec_aes_key_expansion(key, keylen / 4, w);
 	spec_aes_cipher(in, out, w, keylen / 4 + 6);
 }
+
+#pragma CPROVER check pop
 
 #endif /* !AES_SPEC_H_ */
